@@ -135,6 +135,75 @@ def run_pareto_rank(p):
     return {'got': r, 'expected': exp, 'reproduced': r.get('value') != exp}
 
 
+# ------------------------------------------------------------------------------------------ ListOptimalTrials
+def run_list_optimal(p):
+    """payload: metrics [{id, goal}], trials [{succeeded: bool, infeasible: bool?, metrics: [{id, value}]}]
+    The state is reached through RPCs only (CreateStudy, CreateTrial, CompleteTrial); RAM datastore."""
+    from vizier._src.service import study_pb2, vizier_service_pb2 as vs
+    svc = env.new_servicer(None)
+    spec = study_pb2.StudySpec(algorithm='RANDOM_SEARCH')
+    for m in p['metrics']:
+        spec.metrics.add(metric_id=m['id'], goal=m['goal'])
+    q = spec.parameters.add(parameter_id='x')
+    q.double_value_spec.min_value = 0.0
+    q.double_value_spec.max_value = 1.0
+    study = svc.CreateStudy(vs.CreateStudyRequest(parent='owners/o', study=study_pb2.Study(display_name='s', study_spec=spec))).name
+    for t in p['trials']:
+        tr = study_pb2.Trial(state='SUCCEEDED' if t.get('succeeded') else 'REQUESTED')
+        tr.parameters.add(parameter_id='x').value.number_value = 0.5
+        if t.get('infeasible'):
+            created = svc.CreateTrial(vs.CreateTrialRequest(parent=study, trial=tr))
+            req = vs.CompleteTrialRequest(name=created.name, trial_infeasible=True, infeasible_reason='replay')
+            for m in t.get('metrics', []):
+                req.final_measurement.metrics.add(metric_id=m['id'], value=fl(m['value']))
+            svc.CompleteTrial(req)
+            continue
+        for m in t.get('metrics', []):
+            tr.final_measurement.metrics.add(metric_id=m['id'], value=fl(m['value']))
+        svc.CreateTrial(vs.CreateTrialRequest(parent=study, trial=tr))
+    stored = list(svc.ListTrials(vs.ListTrialsRequest(parent=study)).trials)
+    r = call(lambda: [t.id for t in svc.ListOptimalTrials(vs.ListOptimalTrialsRequest(parent=study)).optimal_trials])
+    # the specification, natively, on the stored trials
+    ids = [m['id'] for m in p['metrics']]
+    sign = {m['id']: (-1.0 if m['goal'] == 'MINIMIZE' else 1.0) for m in p['metrics']}
+
+    def val(t, mid):
+        v = None
+        for m in t.final_measurement.metrics:
+            if m.metric_id == mid:
+                v = m.value
+        return v
+    cons = [t for t in stored if t.state == study_pb2.Trial.State.SUCCEEDED and all(val(t, i) is not None for i in ids)]
+    vecs = {t.id: [sign[i] * val(t, i) for i in ids] for t in cons}
+    exp = [t.id for t in cons if not any(dom(vecs[u.id], vecs[t.id]) for u in cons)]
+    got = r.get('value')
+    nan_reported = [i for i in (got or []) if i in vecs and any(math.isnan(x) for x in vecs[i])]
+    not_considered = [i for i in (got or []) if i not in vecs]
+    ob = p.get('obligation', '')
+    if 'no_nan_objective' in ob:
+        rep = bool(nan_reported)
+    elif 'considered' in ob:
+        rep = bool(not_considered)
+    else:
+        rep = got != exp
+    return {'got': r, 'expected': exp, 'stored': [{'id': t.id, 'state': int(t.state), 'metrics': {m.metric_id: m.value for m in t.final_measurement.metrics}} for t in stored],
+            'nan_objective_reported': nan_reported, 'reported_but_not_considered': not_considered, 'reproduced': rep}
+
+
+# ------------------------------------------------------------------------------------------ recorded witnesses (known_findings.d/C11.json)
+def run_witness(name):
+    if name == 'nan_objective':
+        r = run_list_optimal({'obligation': 'C11.ListOptimalTrials.no_nan_objective', 'metrics': [{'id': 'a', 'goal': 'MAXIMIZE'}],
+                              'trials': [{'succeeded': True, 'metrics': [{'id': 'a', 'value': 'nan'}]},
+                                         {'succeeded': True, 'metrics': [{'id': 'a', 'value': 1.0}]}]})
+    elif name == 'fast_tie':
+        r = run_fast_optimal({'points': [[1, 5], [1, 3]], 'threshold': 1})
+    else:
+        return {'error': 'unknown witness %s' % name, 'reproduced': False}
+    r['witness'] = name
+    return r
+
+
 # ------------------------------------------------------------------------------------------ main
 MODES = {}
 
